@@ -154,7 +154,11 @@ fn expr(db: &Db, rng: &mut Rng, depth: u32) -> String {
         25 => format!("{} ^ ({})", expr(db, rng, d), expr(db, rng, d)),
         26 => format!("{} {} ago", number(rng), unit(db, rng)),
         27 => format!("{} - {}", date(rng), date(rng)),
-        28 => format!("{} + {} {}", date(rng), number(rng), rng.pick(&["s", "ns", "years", "days", "m", "centuries", "ms"])),
+        28 => match rng.below(4) {
+            0 => format!("{} {} {}({}) {}", date(rng), rng.pick(&["+", "-"]), rng.pick(&["ln", "sqrt", "exp", "asin", "log2"]), rng.range(-3, 2000), rng.pick(&["s", "hours", "years"])),
+            1 => format!("{} {} {} {} {}", rng.pick(&["water", "gold", "helium", "neon", "H2O", "air"]), rng.pick(&["+", "-", "*", "/"]), number(rng), rng.pick(&["kg", "mol", "m", "m^3", ""]), rng.pick(&["water", "gold", "helium", "neon", "NaCl"])),
+            _ => format!("{} + {} {}", date(rng), number(rng), rng.pick(&["s", "ns", "years", "days", "m", "centuries", "ms"])),
+        },
         _ => format!("{} * -{}", expr(db, rng, d), expr(db, rng, d)),
     }
 }
@@ -326,6 +330,11 @@ pub fn run(o: &Opts) -> i32 {
     writeln!(req, "reset").unwrap(); writeln!(aux, "{}", json!({"k": "reset"})).unwrap();
     for q in ["\\u", "\\u{110000}", "\\uffffffffff", "1 m -> m << 1", "1 -> 2 >> 1", "now -> +25:00", "now -> -24:00", "#2020-01-01 00:00:00.0000000000#", "#2020-01-01 00:00:00 +999999999:00#",
               "1 -> digits 2147483647", "1 -> digits 4294967296", "1 m -> m / (0 + 1)", "1 -> (0+1)^-1", "2^ln(-1)", "1 << ln(-1)", "water + gold", "mass of (water + 1 m)", "((m^2147483647)^2147483647)^3",
+              "helium + 2 kg helium", "2 mol helium + 3 m neon", "water + 1", "water - gold", "water * gold", "water / gold", "2 water + 3 water", "1 kg water + 1 m^3 water", "gold + 2 mol gold -> kg",
+              "now + ln(-1) s", "#2020-01-01# - ln(-1) s", "now + exp(1000) s", "now - exp(1000) s", "now + ln(0) s", "now + sqrt(2) s", "now + 1e30 years", "now - 1e-30 s", "#2020-01-01# + asin(2) hours",
+              "(m^2147483647)^2147483647 * (m^2147483647)^2147483647 -> (m^2147483647)^2147483647", "(m^2147483647)^2147483647 * (m^2147483647)^2147483647", "1 / ((m^2147483647)^2147483647)^2 -> m", "(m^-2147483647)^2147483647 / (m^2147483647)^2147483647",
+              "1^2147483648", "1^-2147483648", "1^2147483647", "1^-2147483647", "1 m^(2^31)", "0^2147483648", "1 << 2147483648", "1 >> 2147483648", "0 << 2147483647", "1 >> -2147483648", "2^(2^31 - 1) - 2^(2^31 - 1)",
+              "1/7 -> digits 18446744073709551616", "1/7 -> digits 18446744073709551615", "1 -> base 18446744073709551616", "1½ cup -> ml", "3 m * 2²", "0.٣", "1٣", "1e٣", "٣",
               "x mod 0", "1 mod 0", "0^-1", "1 << -1", "1 -> base 1", "1 -> base 37", "#01:30 Europe/London#", "1e-400 -> digits 5", "1/0", "ans", "_", "1 m -> ;", "-> m", "->", "1 ->", "", " ", "\t", "\u{0}",
               "factorize kg m^2 s^-2 A^-1 K^-1", "units for 1", "search", "5 hours -> minute;second;", "1 -> hex m", "atan2(1)", "sqrt()", "hypot(1,2,3)", "exp(1000)", "exp(1e10)", "ln(0)", "log(-1)", "asin(2)",
               "1 degC + 1 degC", "5 degC m", "degC", "°", "1 ° C", "-5 °F -> °C", "1 K -> degC", "NaN", "inf", "1e400", "1e-400", "0x", "0b2", "1__0", "1e", "1e+", "1.5.5", "1|0", "1|", "|1", "'", "''", "'a", "\"", "\"a", "#", "##", "#a"] {
